@@ -65,6 +65,8 @@ impl<T> OneShotShared<T> {
 
   pub(super) fn decrement_senders(&self) {
     if self.sender_count.fetch_sub(1, Ordering::AcqRel) == 1 {
+      #[cfg(all(not(loom), excsn_fibre_verif))]
+      crate::verif::point(crate::verif::Kind::Custom);
       // This was the last sender.
       // If state is still EMPTY (meaning no value was ever successfully sent and committed),
       // then the channel is now disconnected from the sender side.
@@ -113,6 +115,8 @@ impl<T> OneShotShared<T> {
 
   pub(super) fn mark_receiver_dropped(&self) {
     self.receiver_dropped.store(true, Ordering::Release);
+    #[cfg(all(not(loom), excsn_fibre_verif))]
+    crate::verif::point(crate::verif::Kind::Custom);
     // If no value has been sent and no senders are in the process of sending,
     // transition to CLOSED.
     if self
@@ -153,6 +157,8 @@ impl<T> OneShotShared<T> {
     ) {
       Ok(_) => {
         // Successfully Acquired WRITING state
+        #[cfg(all(not(loom), excsn_fibre_verif))]
+        crate::verif::point(crate::verif::Kind::Custom);
         // Double check receiver_dropped *after* acquiring WRITING lock.
         if self.receiver_dropped.load(Ordering::Acquire) {
           // Receiver dropped between initial check and acquiring write lock.
@@ -167,18 +173,24 @@ impl<T> OneShotShared<T> {
 
         // We are the chosen sender.
         // Lock is held very briefly.
+        #[cfg(all(not(loom), excsn_fibre_verif))]
+        crate::verif::point(crate::verif::Kind::Custom);
         let mut guard = self.value_slot.lock();
         *guard = Some(MaybeUninit::new(value));
 
         // Now transition from WRITING to SENT.
         // This must succeed as we are the only one in WRITING state.
         // Use swap to ensure it was WRITING.
+        #[cfg(all(not(loom), excsn_fibre_verif))]
+        crate::verif::point(crate::verif::Kind::Custom);
         let prev_state = self.state.swap(STATE_SENT, Ordering::AcqRel);
         debug_assert_eq!(
           prev_state, STATE_WRITING,
           "Oneshot: State inconsistency during send, expected WRITING"
         );
 
+        #[cfg(all(not(loom), excsn_fibre_verif))]
+        crate::verif::point(crate::verif::Kind::Custom);
         self.receiver_waker.wake();
         Ok(())
       }
@@ -202,6 +214,8 @@ impl<T> OneShotShared<T> {
 
   pub(super) fn try_recv(&self) -> Result<T, TryRecvError> {
     let current_state = self.state.load(Ordering::Acquire);
+    #[cfg(all(not(loom), excsn_fibre_verif))]
+    crate::verif::point(crate::verif::Kind::Custom);
 
     if current_state == STATE_SENT {
       // Attempt to transition from SENT to TAKEN. Only one receiver poll will succeed.
@@ -302,7 +316,11 @@ impl<T> OneShotShared<T> {
             return Poll::Ready(Err(RecvError::Disconnected));
           }
 
+          #[cfg(all(not(loom), excsn_fibre_verif))]
+          crate::verif::point(crate::verif::Kind::Custom);
           self.receiver_waker.register(cx.waker());
+          #[cfg(all(not(loom), excsn_fibre_verif))]
+          crate::verif::point(crate::verif::Kind::Custom);
 
           // Critical re-check after registering waker.
           // This is to see if the state changed *while* we were registering.
